@@ -369,7 +369,11 @@ func (p point) Fields() models.Fields { return p.fields }
 func (p point) Tags() models.Tags     { return p.tags }
 func (p point) Time() time.Time       { return p.tm }
 
-func init() { time.Local = time.UTC } // fillScope binds "time" to now.Local(): keep hour()/day() independent of the machine's zone
+// fillScope binds "time" to the point's time in the PROCESS-LOCAL zone (now.Local()): hour()/day()/weekday() of a point are
+// read in that zone. The harness pins the zone - independent of the machine's - to one that is NOT UTC and not a whole
+// number of hours (+05:30), so that an evaluation in UTC (or in the zone the time value happened to carry) gives another
+// hour, minute, day and weekday than the documented one.
+func init() { time.Local = time.FixedZone("VRF", 5*3600+30*60) }
 
 // denoted: the scope the property expects for a point (own reading of the documentation, used only to decide
 // which oracle entries to supply).
@@ -377,7 +381,7 @@ func (o evalOp) denoted(names []string) []binding {
 	var bs []binding
 	for _, n := range names {
 		if n == "time" {
-			bs = append(bs, binding{n, time.Unix(0, o.tm).UTC()})
+			bs = append(bs, binding{n, time.Unix(0, o.tm).In(time.Local)})
 			continue
 		}
 		var fv, tv interface{}
